@@ -53,6 +53,19 @@ pub(crate) mod depcommon {
 		}
 	}
 
+	/// Contract used in place of `std::io::default_write_fmt` (the formatting machinery is far too
+	/// expensive for CBMC): literal-only arguments - which is all xt's Outputs use (`writeln!(w)`,
+	/// `writeln!(w, "---")`) - are written with write_all; anything else is outside these harnesses.
+	pub(crate) fn write_fmt_contract<W: io::Write + ?Sized>(this: &mut W, args: std::fmt::Arguments<'_>) -> io::Result<()> {
+		match args.as_str() {
+			Some(s) => this.write_all(s.as_bytes()),
+			None => {
+				kani::assume(false);
+				Ok(())
+			}
+		}
+	}
+
 	/// Output that records which token each document carried (no serializer involved).
 	pub(crate) struct RecOut {
 		pub toks: [u8; 4],
